@@ -47,6 +47,10 @@ class _OldRewriter(ast.NodeTransformer):
             name = '__old%d' % len(self.olds)
             self.olds.append((name, node.args[0]))
             return ast.copy_location(ast.Name(id=name, ctx=ast.Load()), node)
+        if isinstance(node.func, ast.Name) and node.func.id == 'implies' and len(node.args) == 2:
+            # lazy: the consequent is only evaluated when the guard holds (as in the SMT reading)
+            a, b = self.visit(node.args[0]), self.visit(node.args[1])
+            return ast.copy_location(ast.BoolOp(op=ast.Or(), values=[ast.UnaryOp(op=ast.Not(), operand=a), b]), node)
         return self.generic_visit(node)
 
 
@@ -94,7 +98,8 @@ def check_native(c, args, fn=None):
     """Run the real function on concrete args; None if the contract holds or the input is
     outside the precondition, else dict(clause=..., detail=...)."""
     fn = fn or real_function(c)
-    ns = base_ns()
+    ns = dict(vars(importlib.import_module(c.module)))     # clause names resolve as in the function's module
+    ns.update(base_ns())
     ns.update(args)
     try:
         for name, text in c.requires:
@@ -105,9 +110,11 @@ def check_native(c, args, fn=None):
     pre_ns = dict(ns)
     try:
         call_args = copy.deepcopy(args)
+        pre_ns.update(copy.deepcopy(args))
     except Exception:
+        # values that cannot be copied: old() then sees the same objects (sound only for read-only functions)
         call_args = dict(args)
-    pre_ns.update(copy.deepcopy(args) if call_args is not args else args)
+        pre_ns.update(args)
     live = None
     try:
         if 'LIVE' in c.raises:
